@@ -138,9 +138,11 @@ class Core(object):
         self.sim.new_connection()
 
     def close(self):
-        self._enter("close")
+        k, f = self._enter("close")
         self.closes += 1
-        self.connected = False
+        self.connected = False          # (a close() that fails still leaves the connection unusable)
+        if f is not None and f.kind != "eof":
+            self._raise_fault(f, "close", None)
 
     def bulk_write(self, data, timeout, actor=None):
         k, f = self._enter("write", len(data))
